@@ -961,4 +961,17 @@ v("flush-rebound-at-module-level", [(P, "AnyTaskPoolT = Union[TaskPool, SimpleTa
    "AnyTaskPoolT = Union[TaskPool, SimpleTaskPool]\n\n\nasync def _flush_fast(self: Any, return_exceptions: bool = False) -> None:\n    self._tasks_ended.clear()\n    self._tasks_cancelled.clear()\n\n\nBaseTaskPool.flush = _flush_fast  # type: ignore[method-assign]\n")],
   {"C13": "R00.D"})
 
+CONSTS = "internals/constants.py"
+v("ok-constant-uppercase", [(CONSTS, 'CMD_OK = b"ok"', 'CMD_OK = b"OK"')], {"C17": "R17.9"})
+v("ok-constant-empty", [(CONSTS, 'CMD_OK = b"ok"', 'CMD_OK = b""')], {"C17": "R17.9"})
+SESS = "control/session.py"
+v("P-ok-text-hoisted-to-module-constant", [(SESS, "log = logging.getLogger(__name__)\n", "log = logging.getLogger(__name__)\n\n_OK_TEXT = CMD_OK.decode()\n"),
+                                           (SESS, "        self._response_buffer.write(\n            CMD_OK.decode() if output is None else str(output)\n        )\n\n    async def _exec_property_and_respond(",
+                                            "        self._response_buffer.write(\n            _OK_TEXT if output is None else str(output)\n        )\n\n    async def _exec_property_and_respond(")],
+  {"C17": "ok", "C18": "ok"})
+
+PARSER = "control/parser.py"
+v("omit-params-default-misspelt", [(PARSER, 'OMIT_PARAMS_DEFAULT = ("self",)', 'OMIT_PARAMS_DEFAULT = ("selfx",)')], {"C17": "R17.10"})
+v("omit-params-default-empty", [(PARSER, 'OMIT_PARAMS_DEFAULT = ("self",)', 'OMIT_PARAMS_DEFAULT = ()')], {"C17": "R17.10"})
+
 VARIANTS = V
